@@ -24,11 +24,11 @@ RULE = ("21 oriented models x view angles over the full range (including theta =
 ASSUMPTIONS = ["raw library Iqac/Iqabc is the particle-frame intensity; documented R and |cos(dtheta)| weight",
                "rtol 1e-8 (the kernel forms qab as sqrt(|q|^2-qc^2))"]
 REQUIRED_MONITORS = ["matches_documented_rotation", "rotation_invariance", "inversion_symmetry", "unoriented_depends_on_absq",
-                     "orientation_inert_in_1d"]
+                     "orientation_inert_in_1d", "over_budget_refused_or_exact"]
 REQUIRED_BUCKETS = {"quick": ["jitter:0", "jitter:1", "jitter:2", "jitter:3", "size_pd:0", "size_pd:>=2",
                               "angle:theta0", "angle:theta90", "angle:theta180", "angle:near360", "asymmetric",
                               "symmetric", "lane:asan", "angle_without_loop_slot",
-                              "mesh>100:size-innermost", "jitter:one-point-with-width", "sequence:one-angle-changed"]}
+                              "mesh>100:size-innermost", "jitter:one-point-with-width", "sequence:one-angle-changed", "over-budget:refused"]}
 REQUIRED_BUCKETS["thorough"] = REQUIRED_BUCKETS["quick"]
 
 
@@ -100,6 +100,11 @@ def run_oriented(case, rec):
     rng.shuffle(sizes)
     ns = [0, 1, 2, 3, 0, 2][(k // 2) % 6]
     ns = min(ns, len(sizes), max(0, i.parameters.max_pd - nj))
+    # more distributions than the kernel has loops for: jitter on all three angles plus three sizes.  Such a
+    # request is either refused or evaluated as the average over the whole requested mesh.
+    over = k % 12 == 9 and nj == 3 and len(sizes) >= 3 and pars.get(jit[0] + "_pd_n", 0) > 1
+    if over:
+        ns = i.parameters.max_pd - nj + 1
     for p in sizes[:ns]:
         lo, hi = p.limits
         v = pars[p.name]
@@ -127,9 +132,21 @@ def run_oriented(case, rec):
     qx[1], qy[1] = 0.0, -abs(qy[1]) - 1e-4
     model = sas.build(name)
     kernel = model.make_kernel([qx, qy])
-    I = np.asarray(direct_model.call_kernel(kernel, dict(pars)), float)
     mesh = direct_model.get_mesh(i, pars, dim="2d")
     lengths = [len(m[1]) for m in mesh[2:2 + i.parameters.npars]]
+    nactive = sum(1 for n_ in lengths if n_ > 1)
+    try:
+        I = np.asarray(direct_model.call_kernel(kernel, dict(pars)), float)
+    except ValueError as exc:
+        if nactive > i.parameters.max_pd:
+            rec.bucket("over-budget:refused")
+            rec.check("over_budget_refused_or_exact", True)
+            rec.set_shape((name, cls, "over-budget", nactive), True)
+            kernel.release()
+            return
+        raise
+    if nactive > i.parameters.max_pd:
+        rec.bucket("over-budget:evaluated")
     # does every angle own a loop slot?  (only the max_pd longest distributions are looped over)
     order = np.argsort(lengths)[::-1][:i.parameters.max_pd]
     names = [p.name for p in i.parameters.call_parameters[2:2 + i.parameters.npars]]
@@ -144,6 +161,10 @@ def run_oriented(case, rec):
     ok = core.close(I, ref, 1e-8, 1e-10*I0)
     rec.check("matches_documented_rotation", ok,
               None if ok else dict(ctx, observed=I, expected=ref, max_rel_err=core.maxrel(I, ref, 1e-10*I0)))
+    if nactive > i.parameters.max_pd:
+        rec.check("over_budget_refused_or_exact", ok,
+                  None if ok else dict(ctx, note="%d distributions with more than one point, %d loops; not refused"
+                                       % (nactive, i.parameters.max_pd), observed=I, expected=ref))
     rec.check("no_stale_result", not sas.has_poison(I), ctx)
     # (0) the same model again with exactly one view angle changed (psi only, theta only, phi only): nothing may
     # be carried over from the previous evaluation
